@@ -6,6 +6,41 @@ package pointstore
 
 //@ func PointKey
 //@   property C19
+//@   pure
 //@   arith bv
 //@   ensures len(result) == 18 && result[0] == 'p' && result[17] == suffix
 //@   ensures forall(k, 0, 16, result[1+k] == id[k])
+
+// ---- the point store writes exactly the documented keys (property C01) ----
+// Storage map:  n<node_id>i -> point UUID,  n<node_id>d -> data,  p<point_uuid>i -> node id.
+//@ func SetPoint
+//@   property C01
+//@   safety -overflow
+//@   ensures result == nil ==> ncalls(Put) + ncalls(Delete) == 3
+//@   ensures ncalls(Put) >= 1 ==> len(callarg(Put, 1, 1)) == 10 && callarg(Put, 1, 1)[0] == 'n' && callarg(Put, 1, 1)[9] == 'i' && le64at(callarg(Put, 1, 1), 1) == point.NodeId
+//@   ensures ncalls(Put) >= 1 ==> len(callarg(Put, 1, 2)) == 16 && forall(k, 0, 16, callarg(Put, 1, 2)[k] == point.Point.Id[k])
+//@   ensures ncalls(Put) >= 2 ==> len(callarg(Put, 2, 1)) == 18 && callarg(Put, 2, 1)[0] == 'p' && callarg(Put, 2, 1)[17] == 'i' && forall(k, 0, 16, callarg(Put, 2, 1)[1+k] == point.Point.Id[k])
+//@   ensures ncalls(Put) >= 2 ==> len(callarg(Put, 2, 2)) == 8 && le64at(callarg(Put, 2, 2), 0) == point.NodeId
+//@   ensures result == nil && len(point.Point.Data) > 0 ==> ncalls(Put) == 3 && callarg(Put, 3, 2) == point.Point.Data && callarg(Put, 3, 1)[0] == 'n' && callarg(Put, 3, 1)[9] == 'd' && le64at(callarg(Put, 3, 1), 1) == point.NodeId
+//@   ensures result == nil && len(point.Point.Data) == 0 ==> ncalls(Delete) == 1 && callarg(Delete, 1, 1)[0] == 'n' && callarg(Delete, 1, 1)[9] == 'd' && le64at(callarg(Delete, 1, 1), 1) == point.NodeId
+
+//@ func DeletePoint
+//@   property C01
+//@   safety -overflow
+//@   ensures result == nil ==> ncalls(Delete) == 3 && ncalls(Put) == 0
+//@   ensures ncalls(Delete) >= 1 ==> len(callarg(Delete, 1, 1)) == 18 && callarg(Delete, 1, 1)[0] == 'p' && callarg(Delete, 1, 1)[17] == 'i' && forall(k, 0, 16, callarg(Delete, 1, 1)[1+k] == pointId[k])
+//@   ensures ncalls(Delete) >= 2 ==> callarg(Delete, 2, 1)[0] == 'n' && callarg(Delete, 2, 1)[9] == 'i' && le64at(callarg(Delete, 2, 1), 1) == nodeId
+//@   ensures ncalls(Delete) >= 3 ==> callarg(Delete, 3, 1)[0] == 'n' && callarg(Delete, 3, 1)[9] == 'd' && le64at(callarg(Delete, 3, 1), 1) == nodeId
+
+//@ func CheckPointExists
+//@   property C01
+//@   ensures err == nil && result0 == (callres(Get, 1, 0) != nil)
+//@   ensures len(callarg(Get, 1, 1)) == 18 && callarg(Get, 1, 1)[0] == 'p' && callarg(Get, 1, 1)[17] == 'i' && forall(k, 0, 16, callarg(Get, 1, 1)[1+k] == pointId[k])
+
+//@ func GetPointNodeIdByUUID
+//@   property C01
+//@   safety -overflow
+//@   requires forallv(x uint64, true)
+//@   ensures callres(Get, 1, 0) == nil ==> err == ErrPointDoesNotExist
+//@   ensures callres(Get, 1, 0) != nil && len(callres(Get, 1, 0)) >= 8 ==> err == nil && result0 == le64at(callres(Get, 1, 0), 0)
+//@   ensures callarg(Get, 1, 1)[0] == 'p' && callarg(Get, 1, 1)[17] == 'i' && forall(k, 0, 16, callarg(Get, 1, 1)[1+k] == pointId[k])
